@@ -1565,12 +1565,10 @@ def find_arg_optimal(variable, relation, mode):
     the variable domain that gives the best (according to mode) value for
     this relation.
     """
-    if mode == "min":
-        best_rel_val = get_data_type_max(DEFAULT_TYPE)
-    elif mode == "max":
-        best_rel_val = get_data_type_min(DEFAULT_TYPE)
-    else:
+    if mode not in ("min", "max"):
         raise ValueError("Invalid optimization mode: " + mode)
+    # No sentinel value: any cost (larger than 2^31, infinite) can be optimal.
+    best_rel_val = None
 
     if hasattr(relation, "dimensions"):
         if len(relation.dimensions) != 1 or relation.dimensions[0] != variable:
@@ -1581,8 +1579,10 @@ def find_arg_optimal(variable, relation, mode):
     var_val = list()
     for v in variable.domain:
         current_rel_val = relation(v)
-        if (mode == "max" and best_rel_val < current_rel_val) or (
-            mode == "min" and best_rel_val > current_rel_val
+        if (
+            best_rel_val is None
+            or (mode == "max" and best_rel_val < current_rel_val)
+            or (mode == "min" and best_rel_val > current_rel_val)
         ):
             best_rel_val = current_rel_val
             var_val = [v]
